@@ -44,62 +44,81 @@ def ac_methods(cx):
 
 
 def r13_1(cx):
+    """decided on the path summaries of every AhoCorasick method (helpers that are not vocabulary unfolded, `?`, map_err and
+    explicit matches alike): on every path a call into a search method of self.aut comes after enforce_anchored_consistency(
+    self.start_kind, <anchoring of the very input passed on | Anchored::No>) with the Ok outcome, and a path that returns without
+    delegating returns that check's own error"""
+    from acverif.sym import summarize, canon, cstr
     gated = 0
-    for b in ac_methods(cx):
-        for blk, t in b.calls():
-            if not is_delegate(t):
-                continue
-            ct = b.call_term(blk, t)
-            args = [peel_all(expand_vars(b, a)) for a in ct[2]]
-            has_input = any('util::search::Input' in operand_ty(b, a) for a in t['args'])
+    GATE = r'ahocorasick::enforce_anchored_consistency$'
 
-            def gate_ok(x):
-                if is_call(x, r'core::result::Result::map_err$'):
-                    x = x[2][0]
-                if not is_call(x, r'ahocorasick::enforce_anchored_consistency$') or len(x[2]) != 2:
-                    return False
-                if not self_field(x[2][0], 'start_kind'):
-                    return False
-                w = expand_vars(b, x[2][1])
-                if has_input:
-                    if not is_call(w, r'Input::get_anchored$'):
-                        return False
-                    src = peel_all(expand_vars(b, w[2][0]))
-                    return any(src == a for a in args)
-                return is_agg(w, r'util::search::Anchored$', 'No')
-            gates = result_gates(b, gate_ok)
-            cut = [e for g in gates for e in g[2]]
-            name = short(t['callee']['path'])
-            ok = bool(gates) and not reachable_without(b, [blk], cut)
+    def gate_of(c):
+        x = canon(c)
+        if x[0] == 'discr':
+            x = x[1]
+            if is_call(x, r'core::result::Result::map_err$'):
+                x = x[2][0]
+            if is_call(x, GATE) and len(x[2]) == 2:
+                return x
+        return None
+    for b in ac_methods(cx):
+        try:
+            rows = summarize(cx.facts, b)
+        except Exception:
+            rows = None
+        if rows is None:
+            cx.bad('R13.1', b, 'summary', 'the method could not be summarised')
+            continue
+        sites = {}
+        has_del = False
+        bad_early = None
+        for r in rows:
+            if r.end == 'diverge':
+                continue
+            calls = [(i, canon(e[1])) for i, e in enumerate(r.effects) if e[0] == 'call']
+            dels = [(i, c) for i, c in calls if re.search(DELEGATE_PAT, short(c[1])) and short(c[1]).rsplit('::', 1)[-1] not in INSPECTION]
+            gates = [(g, v) for g, v in ((gate_of(c), v) for c, v in r.conds) if g is not None]
+            gidx = [i for i, c in calls if is_call(c, GATE)]
+            okg = [g for g, v in gates if (v == 0 or (isinstance(v, tuple) and v[0] == 'not' and 1 in v[1])) and cstr(g[2][0]) == 'self.start_kind']
+            if dels:
+                has_del = True
+            for i, c in dels:
+                name = short(c[1])
+                args = [cstr(a) for a in c[2]]
+                inputs = [a for a in c[2] if a[0] in ('v', 'f', 'agg', 'call', 'upd') and ('Input' in cstr(a) or True)]
+                has_input = any(re.search(r'util::search::Input', ty) for ty in _arg_types(cx, b, name))
+                good = False
+                for g in okg:
+                    w = g[2][1]
+                    if has_input:
+                        ws = cstr(w)
+                        good = good or any(ws in ('util::search::Input::get_anchored(%s)' % a, '%s.anchored' % a) for a in args)
+                    else:
+                        good = good or is_agg(w, r'util::search::Anchored$', 'No')
+                good = good and bool(gidx) and min(gidx) < i
+                sites.setdefault(name, []).append(good)
+            if not dels and r.end == 'return' and not any(v == 1 or (isinstance(v, tuple) and v[0] == 'not' and 0 in v[1]) for g, v in gates):
+                bad_early = bad_early or r
+        for name, goods in sorted(sites.items()):
+            ok = all(goods)
             if ok:
                 gated += 1
+            has_in = any(re.search(r'util::search::Input', ty) for ty in _arg_types(cx, b, name))
             cx.report('R13.1', b, name, ok,
-                      ('delegate %s is unreachable without the Ok edge of enforce_anchored_consistency(self.start_kind, %s)' % (name, 'get_anchored(<same input>)' if has_input else 'Anchored::No'))
+                      ('delegate %s is reached only after the Ok outcome of enforce_anchored_consistency(self.start_kind, %s) (%d path(s))' % (name, 'get_anchored(<same input>)' if has_in else 'Anchored::No', len(goods)))
                       if ok else
-                      ('delegate call %s is reachable without passing enforce_anchored_consistency(self.start_kind, <anchoring of the input passed on>)?' % tstr(ct, 200)),
-                      line_of(b, blk))
-    # and no successful result leaves a gated method before the gate: a fast path in front of the check makes rejection depend
-    # on the input
-    for b in ac_methods(cx):
-        gates = result_gates(b, lambda x: is_call(x[2][0] if is_call(x, r'core::result::Result::map_err$') else x, r'ahocorasick::enforce_anchored_consistency$'))
-        if not gates:
-            continue
-        cut = [e for g in gates for e in g[2]]
-        oks = [bi for bi, si, pl, st0 in b.stores() if si != 'term' and pl['l'] == 0 and not pl['pr'] and is_agg(b.rvalue_term(st0['r'], 0, bi), r'Result$', 'Ok')]
-        # delegate results are returned as they are: their return blocks are those reached from the delegate call
-        deleg = [blk for blk, t in b.calls() if is_delegate(t)]
-        early = [x for x in oks if reachable_without(b, [x], cut)]
-        rets = b.return_blocks()
-        okall = not early and all(not reachable_without(b, [r0], cut) or any(g[0] not in b.reach(0, cut_blocks=[]) for g in gates) for r0 in rets) if False else not early
-        # any return reachable without passing a gate's Ok edge must be the gate's own error return
-        for r0 in rets:
-            if reachable_without(b, [r0], cut):
-                # allowed only via the error edges of the gates
-                err_edges = [e for g in gates for e in g[3]]
-                if reachable_without(b, [r0], cut + err_edges):
-                    okall = False
-        cx.report('R13.1', b, 'no-early-return', okall, 'no result is returned before enforce_anchored_consistency has passed (other than its own error)' if okall else 'a result can be returned without the anchoring check having run: acceptance depends on the input')
+                      ('delegate call %s is reachable without passing enforce_anchored_consistency(self.start_kind, <anchoring of the input passed on>)?' % name))
+        if has_del and any(gate_of(c) is not None for r in rows for c, v in r.conds):
+            cx.report('R13.1', b, 'no-early-return', bad_early is None, 'no result is returned before enforce_anchored_consistency has passed (other than its own error)' if bad_early is None else 'a result can be returned without the anchoring check having passed')
     cx.floor('R13.1', 'gated delegate calls in AhoCorasick methods', gated, 11 if cx.config in ('default', 'std', 'logging') else 8)
+
+
+def _arg_types(cx, b, callee_short):
+    """declared parameter types of a delegate (from the fact base)"""
+    for p, bb in cx.facts.bodies.items():
+        if short(p) == callee_short:
+            return bb.j.get('inputs') or []
+    return []
 
 
 def r13_2(cx):
